@@ -2725,7 +2725,7 @@ def _with_units(vals, scaled_name, kind):
     """data and every secondary input in Jy, except `scaled_name` which is given in the unit kind under test"""
     out = {}
     for k, v in vals.items():
-        v = np.array(v, dtype=float)
+        v = float(v) if np.ndim(v) == 0 else np.array(v, dtype=float)
         if k != scaled_name or kind == 'identical':
             out[k] = v * UNIT
         elif kind == 'scaled':
@@ -2751,7 +2751,8 @@ def _physical(g):
 def unit_case(sc, name, sec, kind):
     """-> (verdict, message): the unit-less float64 run defines the expected numbers"""
     vals, call = unit_entries(sc)[name]
-    st0, r0 = _call(lambda d, e: call({k: np.array(v, dtype=float) for k, v in vals.items()}), None, None)
+    st0, r0 = _call(lambda d, e: call({k: (float(v) if np.ndim(v) == 0 else np.array(v, dtype=float))
+                                        for k, v in vals.items()}), None, None)
     if st0 != 'ok':
         return 'reference-fails', r0
     st, r = _call(lambda d, e: call(_with_units(vals, sec, kind)), None, None)
